@@ -40,7 +40,7 @@ def slug(msg):
 
 
 def label_of(line_text):
-    m = re.search(r'\[([A-Za-z0-9_.\-]+)\]', line_text or '')
+    m = re.search(r'//.*\[([A-Za-z][A-Za-z0-9_.\-]+)\]', line_text or '')
     return m.group(1) if m else None
 
 
